@@ -27,7 +27,8 @@ def doLine (line : String) : String :=
     | [c] => (c, "")
     | _ => ("", "")
   match cs.splitOn " | " with
-  | [pH, sep, msS, infoS, listS, tbS] =>
+  | pH :: sep :: msS :: infoS :: listS :: tbS :: more =>
+    let pat2 := strOfHex (more.headD "")
     let pat0 := strOfHex pH
     let pat := if pat0 == "" then "**/*" else pat0
     let written := (fields msS ";").map fun m => match m.splitOn "," with
@@ -44,14 +45,28 @@ def doLine (line : String) : String :=
     let toks := fields tbS " "
     let bad := toks.any (· == "B" ++ hexOfStr pat)
     let look (pre : String) (n : String) : Bool := toks.any (· == s!"{pre}{hexOfStr pat}:{hexOfStr n}:1")
+    let g2 : String → Bool := fun n => toks.any (· == s!"G{hexOfStr pat2}:{hexOfStr n}:1")
     -- `archive_get_path_and_glob`: an invalid pattern is refused in the `/` form, escaped in the `!/` form
     let passthrough := bad && sep != "!"
     let g : String → Bool := if bad then look "E" else look "G"
     let out := extractArchive pat g "arch" listing ms
+    -- the second request: what exists is what the first one wrote (files, and the directories above them)
+    let firstFiles := out.map fun (n, _) => resolved n
+    let existsIn (n : String) : Bool :=
+      let r := resolved n
+      firstFiles.any fun f => f == r || f.startsWith (r ++ "/") || r == ""
+    let second : Option (List String × List (String × List UInt8)) :=
+      if pat2 == "" then none else some (extractArchiveInto existsIn pat2 g2 "arch" listing ms)
     let render (o : List (String × List UInt8)) : String :=
       let r := sortStrs (o.map fun (n, _) => hexOfStr (resolved n))
-      let f := sortStrs (o.map fun (n, d) => s!"{hexOfStr (resolved n)}:{d.length}:{hashBytes d}")
-      s!"R:{"+".intercalate r} F:{"+".intercalate f} X:0"
+      let all : List (String × List UInt8) := match second with
+        | some (_, w) => o ++ (w.filter fun (nd : String × List UInt8) => !(o.any fun (md : String × List UInt8) => resolved md.1 == resolved nd.1))
+        | none => o
+      let f := sortStrs (all.map fun (n, d) => s!"{hexOfStr (resolved n)}:{d.length}:{hashBytes d}")
+      let s2 := match second with
+        | some (pre, w) => " S:" ++ "+".intercalate (sortStrs ((pre ++ w.map (fun (nd : String × List UInt8) => nd.1)).map fun n => hexOfStr (resolved n)))
+        | none => ""
+      s!"R:{"+".intercalate r}{s2} F:{"+".intercalate f} X:0"
     let mobs := if passthrough then "P" else render out
     -- C20 on an observation: exactly the selected members are reported, with their contents, nothing outside
     -- (an archive with the single entry `data` follows the documented .gz/.bz2 rule: the entry is taken when the pattern
@@ -64,6 +79,7 @@ def doLine (line : String) : String :=
       else if o == "P" || want == "P" then (if o == want then "C20=ok" else "C20=FAIL:archive-not-recognised-or-wrongly-recognised")
       else if tok o "X:" != "0" then "C20=FAIL:file-created-or-reported-outside-the-temporary-directory"
       else if tok o "R:" != tok want "R:" then "C20=FAIL:reported-members-are-not-exactly-the-matching-enclosed-ones"
+      else if tok o "S:" != tok want "S:" then "C20=FAIL:second-request-reports-or-extracts-other-than-the-matching-members"
       else if tok o "F:" != tok want "F:" then "C20=FAIL:extracted-content-differs-or-extra-files"
       else "C20=ok"
     -- the model of `enclosed_name()` against what the crate said
@@ -72,7 +88,7 @@ def doLine (line : String) : String :=
       (if ms.any (·.enclosed.isNone) then ["hostile-name"] else []) ++ (if ms.any (·.kind == .dir) then ["dir-member"] else []) ++
       (if out.isEmpty then ["nothing-extracted"] else ["extracted"]) ++ (if out.length < (ms.filter (·.kind == .file)).length then ["subset"] else []) ++
       (if passthrough then ["invalid-pattern"] else []) ++ (if sep == "!" then ["bang-form"] else []) ++
-      (if listing == ["data"] then ["single-data"] else []) ++ (if !encOk then ["enclosed-model-differs"] else []) ++
+      (if listing == ["data"] then ["single-data"] else []) ++ (if pat2 != "" then ["second-request"] else []) ++ (if !encOk then ["enclosed-model-differs"] else []) ++
       (if ms.any (fun m => m.data.isEmpty && m.kind == .file) then ["empty-member"] else [])
     let mobs' := if encOk then mobs else mobs ++ " enclosed-name-model-differs-from-crate"
     s!"{mobs'}\t{if impl == "" then "-" else orc impl}\t{orc mobs}\t{",".intercalate tags}"
